@@ -326,6 +326,24 @@ def r_mgr_total(e, R):
                     f"`{dotted}` {why}; it is reachable from the manager's wait/classification step ({' -> '.join(e.call_path(reach, q))}) without a "
                     f"handler of {exc}: the manager thread dies while reporting a worker death, the pool is never flagged broken and every "
                     "pending future stays unresolved", e.loc(f, c))
+    # a lookup in a module-level table with a key computed from what a worker produced (its exit code) is value-partial too
+    for q in reach:
+        f = e.prog.funcs[q]
+        if not f.module.name.startswith("loky."):
+            continue
+        modnames = {t_.id for s_ in f.module.tree.body if isinstance(s_, ast.Assign) for t_ in s_.targets if isinstance(t_, ast.Name)
+                    and isinstance(s_.value, (ast.Dict, ast.DictComp))}
+        for sub in [x for x in func_nodes(f) if isinstance(x, ast.Subscript) and isinstance(x.ctx, ast.Load) and isinstance(x.value, ast.Name)
+                    and x.value.id in modnames and x.value.id not in f.locals and not isinstance(x.slice, ast.Constant)]:
+            n += 1
+            ok = False
+            for cn in cfg_nodes(e, f, sub):
+                hs = [m for m, l in cn.succ if l == "exc" and m.kind == "except"]
+                ok = any(h.ast.type is None or any(k in norm(h.ast.type) for k in ("KeyError", "LookupError", "Exception", "BaseException")) for h in hs)
+            R.check(ok, "R-MGR-TOTAL", f"{f.short}: the table lookup `{norm(sub)[:40]}` is guarded by a handler of KeyError", f.short, norm(sub)[:60],
+                    f"`{norm(sub)}` raises KeyError for a key the table does not contain (an exit code / signal number without an entry, e.g. a real-time signal); it is "
+                    f"reachable from the manager's wait/classification step ({' -> '.join(e.call_path(reach, q))}) without a handler of KeyError: the manager thread "
+                    "dies while reporting a worker death, the pool is never flagged broken and every pending future stays unresolved", e.loc(f, sub))
     # explicit raises on that path (outside any handler) are the same hazard
     for q in reach:
         f = e.prog.funcs[q]
